@@ -178,6 +178,12 @@ def load_known():
         return json.load(f)
 
 
+class SetupRejected(Exception):
+    """The library refused (raised on) a set-up step of a case whose property is about something else - e.g. the append
+    that builds the table a filter check then reads.  Rejecting is not a violation of that property: the case is counted
+    as trivial under the label `setup-rejected` (a check with too few non-trivial cases left exits 2, never VIOLATION)."""
+
+
 def _worker(args):
     modname, task = args
     try:
@@ -186,7 +192,12 @@ def _worker(args):
         import importlib
 
         mod = importlib.import_module(modname)
-        r = mod.run_task(task)
+        try:
+            r = mod.run_task(task)
+        except SetupRejected as e:
+            r = Result()
+            r.case(key="setup-rejected:" + repr(task)[:200], nontrivial=False, labels=["setup-rejected"])
+            r.extra["setup_rejected"] = repr(e)[:300]
         return r.to_dict() if isinstance(r, Result) else r
     except BaseException:  # harness error, reported to the parent
         return {"harness_error": traceback.format_exc(), "task": repr(task)[:500]}
